@@ -20,7 +20,7 @@ DISCRETE = ("flip", "cat")
 
 
 class Event:
-    __slots__ = ("tag", "kind", "elem", "params", "value", "probs", "chosen", "scripted")
+    __slots__ = ("tag", "kind", "elem", "params", "value", "probs", "chosen", "scripted", "call")
 
     def __init__(self, tag, kind, elem, params, value, probs=None, chosen=None, scripted=False):
         self.tag = tag
@@ -31,6 +31,7 @@ class Event:
         self.probs = probs  # discrete: reference pmf over outcomes under ``params``
         self.chosen = chosen
         self.scripted = scripted
+        self.call = None  # index of the host call this element belongs to
 
     def as_dict(self):
         return {
@@ -102,6 +103,7 @@ class Host:
                     val = np.float32(0.5 * (lo + hi))
                 scripted = False
             ev = Event(tag, kind, elem, params, val, None, None, scripted)
+        ev.call = self.calls
         self.events.append(ev)
         return val
 
